@@ -437,17 +437,30 @@ def gen_backend(rng, variant, nops, mmax):
     nmax = 3 if variant != "MPS" else 3
 
     def rand_state(mm):
-        n = rng.choice([0, 1, 1, 2, 2, 2, 3][:nmax * 2 + 1])
+        # no vacuum input under a mask: the native arrays of an unsatisfiable mask are empty (a mask such as
+        # "2 1 " with n=2, a vacuum input, then a 2-photon input crashes the interpreter on both trees)
+        n = rng.choice([1, 1, 2, 2, 2, 3] if mlen is not None else [0, 1, 1, 2, 2, 2, 3])
         return rng.choice(states(mm, n))
 
     def rand_mask(mm):
+        """satisfiable masks only: the digits never ask for more photons than the mask is instantiated with"""
+        n = rng.choice([None, None, 3, 4])        # an explicit n below the photon number of an input keeps nothing
+        budget = 1 if n is None else n
         strs = []
         for _ in range(rng.choice([1, 1, 1, 2])):
-            s = "".join(rng.choice("   012") for _ in range(mm))
+            left = budget
+            chars = []
+            for _ in range(mm):
+                d = rng.choice("   012")
+                if d != " " and int(d) > left:
+                    d = "0" if rng.random() < 0.5 else " "
+                if d != " ":
+                    left -= int(d)
+                chars.append(d)
+            s = "".join(chars)
             if rng.random() < 0.3:
                 s = s.replace(" ", "*", 1)
             strs.append(s)
-        n = rng.choice([None, None, 1, 2, 3, 4])
         return strs, n
 
     while len(ops) < nops:
@@ -475,6 +488,8 @@ def gen_backend(rng, variant, nops, mmax):
                 inp = rand_state(m)
                 ops.append(["in", inp])
         elif r < 0.62:
+            if inp is not None and sum(inp) == 0:
+                continue
             strs, n = rand_mask(m)
             ops.append(["mask", strs, n])
             mlen = m
@@ -1259,7 +1274,7 @@ def fail_sig(h, f):
         return "slos-mask-change-after-input"
     if fam == "backend" and var == "SLOS" and ks.count("in") >= 2 and "mask" in ks:
         return "slos-mask-reinstantiated"
-    if fam == "backend" and var == "MPS" and "e" not in real and "e" not in fresh:
+    if fam == "backend" and var == "MPS" and ("cutoff" in ks or ks.count("in") >= 2):
         return "mps-cutoff-history"
     if fam == "stepper" and "e" not in real and ("filter" in ks or "heralds" in ks):
         return "stepper-filter-stale"
@@ -1269,6 +1284,11 @@ def fail_sig(h, f):
     if fam == "simulator" and op[1] in ("probs", "probability", "amp") and \
             any(o[0] == "q" and o[1] in ("probs_svd", "evolve", "evolve_svd") for o in h["ops"][:i]):
         return "simulator-leftover-mask"
+    if fam == "simulator" and op[1] == "evolve" and any(o[0] == "q" and o[1] in ("probs_svd", "evolve_svd")
+                                                       for o in h["ops"][:i]):
+        return "simulator-evolve-inherits-mask-mode"
+    if fam == "processor" and "filter" not in ks:
+        return "processor-auto-filter-persists"
     if fam == "processor" and "e" in real and "set_circuit" in ks:
         return "processor-set-circuit-keeps-nonunitary-flags"
     if fam == "processor" and op[2] is None and any(o[0] == "q" and o[2] is not None for o in h["ops"][:i]):
@@ -1490,7 +1510,11 @@ def run(chk: core.Check):
 
     ctx = mp.get_context("fork")
     with ctx.Pool(min(14, os.cpu_count() or 4)) as pool:
-        results = pool.map(_work, jobs, chunksize=1)
+        # a worker killed by a native crash would make the pool wait for ever
+        try:
+            results = pool.map_async(_work, jobs, chunksize=1).get(timeout=chk.pick(170, 850))
+        except mp.TimeoutError:
+            raise RuntimeError("a worker process did not return (native crash of exqalibur or a hang) — harness problem")
 
     auto_filter_probe(chk)
     chk.lean = core.LeanDriver("C05")
